@@ -396,3 +396,11 @@ func ReadRootEdges(file string) (roots []string, metaRoot string, err error) {
 	err = db.QueryRow("SELECT root_id FROM meta").Scan(&metaRoot)
 	return roots, metaRoot, err
 }
+
+// StopKeepBus completes a shutdown (Store.Stop already called) but keeps the
+// bus registered, so that a new store can come up on it (server restart).
+func (i *Inst) StopKeepBus() {
+	<-i.done
+	i.Nc.Close()
+	i.StNc.Close()
+}
